@@ -726,6 +726,11 @@ def result_sets(tier):
         sets += list(itertools.combinations_with_replacement(s2, 3))
     else:
         sets += list(itertools.combinations_with_replacement(s3, 3))
+    # many sequences: names "0".."N-1" have one and two digits, neighbouring rows differ in
+    # length and therefore in gap pattern (N around the 10 boundary; thorough: up to 25 and 101)
+    s_cycle = ["a", "ab", "bab", "ba", "b", "abb", "bb"]
+    for n in ((9, 10, 11, 12) if tier == "quick" else (9, 10, 11, 12, 13, 20, 21, 25, 101)):
+        sets.append(tuple(s_cycle[(k * 3 + k // 7) % 7] for k in range(n)))
     return sets
 
 
